@@ -737,6 +737,23 @@ def run_device_size_path(rep):
              (U32 * 512 - 512, True), (U32 * 512, True), (U32 * 512 + 1, True), (U32 * 512 + 511, True), ((U32 + 1) * 512, False),
              ((U32 + 1) * 512 + 5, False), ((1 << 33) * 512, False)]
     scripts = [["dev %d 0" % n, "wlog 0", "format - - - - - - - - -", "mount 1 0 lossy", "stats", "unmount"] for n, _ in cases]
+    # a refused request followed by a RETRY on the same storage object (`format_again`: the position is where the refused call
+    # left it): an explicit sector count that fits, a smaller sector... must succeed and mount; also after an accepted format
+    retries = []
+    for n in ((U32 + 1) * 512, (U32 + 1) * 512 + 5, (1 << 33) * 512):
+        for again in ("format_again 512 %d - - - - - - -" % U32, "format_again 512 8000000 - - - - - - -", "format_again 4096 - - - - - - - -"):
+            retries.append(["dev %d 0" % n, "wlog 0", "format - - - - - - - - -", again, "mount 1 0 lossy", "stats", "unmount"])
+    for first in ("format 512 30 - - - - - - -", "format 512 5000 - 32 - - - - -", "format 512 5000 - - - - - - -"):
+        retries.append(["dev %d 0" % (70000 * 512), "wlog 0", first, "format_again 512 70000 512 - - - - - -", "mount 1 0 lossy", "stats", "unmount"])
+    for sc_lines, ops in zip(retries, vlib.run_scripts(retries)):
+        rep.count()
+        bad = [o for o in ops[2:] if o.kind != "ok" and not (o is ops[2] and o.kind == "err" and o.payload.startswith("InvalidInput"))]
+        if bad:
+            rep.violation("format_volume called again on the same storage object after %s: %s -> %s %s" % (
+                "a refused request" if ops[2].kind == "err" else "an accepted one", bad[0].line[:60], bad[0].kind,
+                bytes.fromhex(bad[0].payload).decode("utf-8", "replace")[:80] if bad[0].kind == "panic" else bad[0].payload[:40]), {"script": sc_lines})
+        else:
+            rep.distinct(("retry", tuple(sc_lines[:4])))
     res = vlib.run_scripts(scripts)
     done = 0
     for (n, want_ok), sc_lines, ops in zip(cases, scripts, res):
